@@ -1267,7 +1267,9 @@ func (bg *BondgoCheck) Visit(n ast.Node) ast.Visitor {
 			// fmt.Println(len(bg.Program))
 
 			needchan := false
-			for varname, cell := range vars {
+			for _, farg := range functcell.Inputs {
+				varname := farg.Argname
+				cell := vars[varname]
 				if gent, _ := Type_from_string(bg.Basic_type); Same_Type(cell.Vtype, gent) {
 					needchan = true
 					bggoroutine.Reqs <- VarReq{REQ_NEW, bggoroutine.CurrentRoutine, cell}
@@ -1397,7 +1399,8 @@ func (bg *BondgoCheck) Visit(n ast.Node) ast.Visitor {
 						// Send the passed by value data to the channel
 						channame := procbuilder.Get_channel_name(cell.Id)
 
-						for _, cell := range vars {
+						for _, farg := range functcell.Inputs {
+							cell := vars[farg.Argname]
 							gent1, _ := Type_from_string(bg.Basic_type)
 							gent2, _ := Type_from_string("bool")
 							if Same_Type(cell.Vtype, gent1) || Same_Type(cell.Vtype, gent2) {
@@ -1442,7 +1445,11 @@ func (bg *BondgoCheck) Visit(n ast.Node) ast.Visitor {
 						// Get the data passed by value from the channel on the other side
 						ochanname := procbuilder.Get_channel_name(ocell.Id)
 
-						for _, cell := range newvars {
+						for _, farg := range functcell.Inputs {
+							cell, isNew := newvars[farg.Argname]
+							if !isNew {
+								continue
+							}
 							gent1, _ := Type_from_string(bg.Basic_type)
 							gent2, _ := Type_from_string("bool")
 							if Same_Type(cell.Vtype, gent1) || Same_Type(cell.Vtype, gent2) {
